@@ -637,6 +637,77 @@ def run_lazy(n):
     return viol
 
 
+def run_shared_names(order):
+    """two interfaces of one object declare a property of the same name with
+    different access; each descriptor names its interface.  The
+    announcement and GetManagedObjects list, per interface, exactly its
+    readable properties"""
+    from txdbus import objects as O, interface as I
+    viol = []
+    cw = fakes.ClientWorld()
+    try:
+        cw.sent()
+        ctl = I.DBusInterface(
+            'org.ex.Control', I.Property('Level', 'u', readable=False,
+                                         writeable=True),
+            I.Property('Mode', 's', writeable=True), noRegister=True)
+        stat = I.DBusInterface(
+            'org.ex.Status', I.Property('Level', 'u'),
+            I.Property('Mode', 's', readable=False, writeable=True),
+            I.Property('Name', 's'), noRegister=True)
+        ifs = [ctl, stat] if order == 'control-first' else [stat, ctl]
+
+        class Dev(O.DBusObject):
+            dbusInterfaces = ifs
+            ctl_level = O.DBusProperty('Level', interface='org.ex.Control')
+            stat_level = O.DBusProperty('Level', interface='org.ex.Status')
+            ctl_mode = O.DBusProperty('Mode', interface='org.ex.Control')
+            stat_mode = O.DBusProperty('Mode', interface='org.ex.Status')
+            name = O.DBusProperty('Name')
+        cw.conn.exportObject(O.DBusObject('/sn'))
+        d = Dev('/sn/dev')
+        d.ctl_level, d.stat_level = 7, 3
+        d.ctl_mode, d.stat_mode = 'auto', 'hidden'
+        d.name = 'cpu'
+        cw.sent()
+        cw.conn.exportObject(d)
+        sigs = [m for m in cw.sent() if m['type'] == 4 and
+                m['fields'].get('member') == 'InterfacesAdded']
+        want = {'org.ex.Control': {'Mode': 'auto'},
+                'org.ex.Status': {'Level': 3, 'Name': 'cpu'}}
+        got = None
+        if len(sigs) == 1:
+            got = {k: v for k, v in sigs[0]['body_plain'][1].items()
+                   if k.startswith('org.ex.')}
+        if got != want:
+            viol.append(('shared-names/announcement',
+                         'interfaces declared %s: InterfacesAdded lists %r, '
+                         'the readable properties are %r'
+                         % (order, got, want)))
+        cw.conn.dataReceived(R.encode_message(
+            R.METHOD_CALL, 9100,
+            {'path': '/sn', 'member': 'GetManagedObjects', 'sender': CALLER,
+             'destination': ':1.7',
+             'interface': 'org.freedesktop.DBus.ObjectManager'}))
+        mine = [m for m in cw.sent()
+                if m['fields'].get('reply_serial') == 9100]
+        got = None
+        if len(mine) == 1 and mine[0]['type'] == 2:
+            got = {k: v for k, v in mine[0]['body_plain'][0].get(
+                '/sn/dev', {}).items() if k.startswith('org.ex.')}
+        if got != want:
+            viol.append(('shared-names/managed',
+                         'interfaces declared %s: GetManagedObjects reports '
+                         '%r, the readable properties are %r'
+                         % (order, got, want)))
+    except Exception as e:
+        viol.append(('shared-names/raises-%s' % type(e).__name__,
+                     '%r' % (e,)))
+    finally:
+        cw.close()
+    return viol
+
+
 TRICKY = ['/ab', '/ab/bc', '/ab/a', '/ab/ab', '/ab/bc/c', '/srv/a/s',
           '/srv/a/v1', '/a/a']
 
@@ -695,6 +766,15 @@ CHURN = [(60, 0, True), (200, 0, False), (300, 7, False), (400, 40, False)]
 
 def _task_churn(args):
     res = core.Result()
+    if args[0] == 'shared-names':
+        res.count('states')
+        res.count('transitions', 2)
+        res.count('evaluations', 2)
+        res.count('nontrivial')
+        for t, w in run_shared_names(args[1]):
+            res.violation('%s/%s' % (PROP, t), w,
+                          {'part': 'shared-names', 'order': args[1]}, size=1)
+        return res
     if args[0] == 'names':
         for mask in range(args[1], 1 << len(TRICKY), args[2]):
             res.count('states')
@@ -786,11 +866,16 @@ def run(ctx):
                     max_depth=3 if ctx.quick else 5,
                     label='all histories, no deduplication')
     ctx.map(_task_churn, CHURN + [('lazy', 1), ('lazy', 2), ('lazy', 5)]
-            + [('names', i, 16) for i in range(16)])
+            + [('names', i, 16) for i in range(16)]
+            + [('shared-names', 'control-first'),
+               ('shared-names', 'status-first')])
     ctx.bounds = {'paths': len(UNIVERSE)}
 
 
 def replay(data):
+    if data.get('part') == 'shared-names':
+        return [('%s/%s' % (PROP, t), w) for t, w in
+                run_shared_names(data['order'])]
     if data.get('part') == 'names':
         return [('%s/%s' % (PROP, t), w) for t, w in run_names(data['mask'])]
     if data.get('part') == 'lazy':
